@@ -17,6 +17,7 @@ structure St where
   typ : Typ := .model
   trans : Bool := false
   xform : Bool := false        -- the transformer's Transform is not the identity
+  hide : Bool := false         -- the transformer's Transform fails (not found) for values carrying a marker
   dflt : Option V := none
   store : List (Str × V) := []
   cache : List (Str × Cache) := []
@@ -161,9 +162,16 @@ def tf (st : St) (v : V) : V :=
   | .coll l => .coll (str "\"T\"" :: l)
   | .model m => .model (mset m (str "_t") (str "1"))
 
+/-- `Transform` as an operation that may fail: a hidden value has no served representation -/
+def tfOpt (st : St) (v : V) : Option V :=
+  let hidden : Bool := match v with
+    | .coll l => l.contains (str "\"H\"")
+    | .model m => m.any (·.1 = str "h")
+  if st.hide && hidden then none else some (tf st v)
+
 def served (st : St) (id : Str) : Option V :=
   match aget st.store id with
-  | some v => some (tf st v)
+  | some v => tfOpt st v          -- a Transform error is answered with that error (not with the default)
   | none => st.dflt
 
 def mutate (st : St) (id : Str) (after : Option V) (impl : String) (kind : String) : St × String × String × String :=
@@ -173,7 +181,9 @@ def mutate (st : St) (id : Str) (after : Option V) (impl : String) (kind : Strin
     | _ => before.isSome
   if !okOp then (st, "err", if impl = "err" then "?ok" else "?viol:store-accepted-invalid-op", kind ++ "-err")
   else
-    let out := changeHandler st.typ st.dflt (before.map (tf st)) (after.map (tf st))
+    -- a missing value is served as the default; a value whose Transform fails is treated as missing
+    let rep (v : Option V) : Option V := match v with | none => st.dflt | some x => tfOpt st x
+    let out := changeHandler st.typ none (rep before) (rep after)
     let st' := { st with store := match after with
       | some v => aset st.store id v
       | none => st.store.filter (·.1 != id) }
@@ -187,7 +197,8 @@ def mutate (st : St) (id : Str) (after : Option V) (impl : String) (kind : Strin
       | .nothing => "silent" | .create => "createev" | .delete => "deleteev" | .change _ => "change"
       | .coll evs => (if evs.any (fun e => match e with | .remove _ => true | _ => false) then "rem" else "") ++
                      (if evs.any (fun e => match e with | .add _ _ => true | _ => false) then "add" else "")
-      | .badtype => "badtype") ++ (if st.xform then "-xform" else "") ++ (if st.dflt.isSome ∧ (before.isNone ∨ after.isNone) then "-dflt" else "")
+      | .badtype => "badtype") ++ (if st.xform then "-xform" else "") ++
+      (if st.hide ∧ (before.bind (tfOpt st)).isNone ∧ before.isSome ∧ (after.bind (tfOpt st)).isNone ∧ after.isSome then "-hidden-both" else if st.hide then "-hide" else "") ++ (if st.dflt.isSome ∧ (before.isNone ∨ after.isNone) then "-dflt" else "")
     ({ st' with cache := cache }, m, if impl.isEmpty then "-" else spec, tag)
 
 def run (st : St) (args : List Str) (impl : String) : St × String × String × String :=
@@ -200,7 +211,7 @@ def run (st : St) (args : List Str) (impl : String) : St × String × String × 
       | t :: tr :: d :: drest =>
         let typ := if t = str "model" then Typ.model else .collection
         let dflt := if d = str "D" then (parseVal typ drest).map (·.1) else none
-        ({ typ := typ, trans := tr = str "T" ∨ tr = str "X", xform := tr = str "X", dflt := dflt }, "ok", "-", "triv-cfg")
+        ({ typ := typ, trans := tr = str "T" ∨ tr = str "X", xform := tr = str "X", hide := tr = str "H", dflt := dflt }, "ok", "-", "triv-cfg")
       | _ => bad
     else if c = str "create" ∨ c = str "update" then
       match rest with
